@@ -57,7 +57,7 @@ fn mutate_text(rng: &mut Rng, base: &str) -> (String, &'static str) {
             match rng.below(4) {
                 0 => (base.replace("name", &"n".repeat(20000)), "identifier of 20000 characters"),
                 1 => (base.replacen('{', &format!("{{ {} ", "name ".repeat(3000)), 2), "3000 repeated fields"),
-                2 => (base.replace("\"a\"", &format!("\"{}\"", "x".repeat(400_000))).replace("\"kiki\"", &format!("\"{}\"", "y".repeat(400_000))), "400 kB string literal"),
+                2 => (base.replace("\"a\"", &format!("\"{}\"", "x".repeat(120_000))).replace("\"kiki\"", &format!("\"{}\"", "y".repeat(120_000))), "120 kB string literal"),
                 _ => (format!("{}{}", base, " ".repeat(100_000)), "100 kB of trailing blanks"),
             } }
         _ => { // nesting
